@@ -44,6 +44,10 @@ type Conn struct {
 
 	state   imap.ConnState
 	session Session
+
+	// set when a non-synchronizing literal has been refused: the client has
+	// already sent its payload, which cannot be told apart from commands
+	refusedNonSyncLiteral bool
 }
 
 func newConn(c net.Conn, server *Server) *Conn {
@@ -280,7 +284,15 @@ func (c *Conn) readCommand(dec *imapwire.Decoder) error {
 		}
 	}
 
-	dec.DiscardLine()
+	if dec.DiscardLine() {
+		c.refusedNonSyncLiteral = true
+	}
+	if err != nil && c.refusedNonSyncLiteral {
+		// The payload of the literal follows on the wire and we won't read
+		// it: give up on the connection once the command has been answered
+		c.state = imap.ConnStateLogout
+		defer c.Bye("Non-synchronizing literal refused")
+	}
 
 	var (
 		resp    *imap.StatusResponse
@@ -379,6 +391,7 @@ func (c *Conn) handleUnsubscribe(dec *imapwire.Decoder) error {
 
 func (c *Conn) checkBufferedLiteral(size int64, nonSync bool) error {
 	if size > 4096 {
+		c.refusedNonSyncLiteral = nonSync
 		return &imap.Error{
 			Type: imap.StatusResponseTypeNo,
 			Code: imap.ResponseCodeTooBig,
@@ -391,6 +404,7 @@ func (c *Conn) checkBufferedLiteral(size int64, nonSync bool) error {
 
 func (c *Conn) acceptLiteral(size int64, nonSync bool) error {
 	if nonSync && size > 4096 && !c.server.options.caps().Has(imap.CapLiteralPlus) {
+		c.refusedNonSyncLiteral = true
 		return &imap.Error{
 			Type: imap.StatusResponseTypeBad,
 			Text: "Non-synchronizing literals are limited to 4096 bytes",
